@@ -192,9 +192,13 @@ def char2entity(c: str | bytes | bytearray) -> str:
     return '&%s;' % name if name is not None else '&#%d;' % cp
 
 
+# (``apos`` is one of the predefined entities of XML, not of HTML 4)
+_name2codepoint = dict(htmlentitydefs.name2codepoint, apos=39)
+
+
 def substitute_entity(
     match: re.Match[str],
-    n2cp: Mapping[str, int] = htmlentitydefs.name2codepoint
+    n2cp: Mapping[str, int] = _name2codepoint
 ) -> str:
     ent = match.group(3)
 
